@@ -27,6 +27,7 @@ def run(prog, run):
     r_string(prog, run)
     r_source(prog, run)
     r_multi(prog, run)
+    r_reply(prog, run)
 
 
 # ---------------------------------------------------------------------------------------------------------------
@@ -886,7 +887,24 @@ def r_source(prog, run):
                 an = g.nodes[g.skip(a)]
                 if an['k'] == 'mem' and an.get('f') == cp:
                     sites.append((g, i))
-    if len(sites) < 3:
+    # a function that stores a new client presence must put that stored presence (whose hash was just recomputed) on the wire, not another presence object
+    for g in prog.fns.values():
+        if not g.file.endswith('QXmppClient.cpp') or g.raw.get('dependent'):
+            continue
+        stores = [i for i, n in g.all_nodes('assign') if g.nodes[g.skip(n['l'])].get('f') == cp] + \
+                 [i for i, n in g.calls() if n.get('op') == '=' and n.get('opargs') and g.nodes[g.skip(n['opargs'][0])].get('f') == cp]
+        if not stores:
+            continue
+        for i, n in g.calls():
+            if not (g.cname(n).endswith('::sendPacket') or g.cname(n).endswith('::send')) or not n.get('args'):
+                continue
+            an = g.nodes[g.skip(n['args'][0])]
+            if 'QXmppPresence' in (an.get('t') or '') and not (an['k'] == 'mem' and an.get('f') == cp):
+                run.instance(rid)
+                run.violation(rid, 'clientPresence-emission#%s#other-object' % top_function(prog, g).qname, g.loc(i),
+                              '%s stores the new client presence and recomputes its capability hash, but sends %s: what goes on the wire carries the ver the caller happened to pass '
+                              '(stale or none), not the hash of the current capabilities' % (top_function(prog, g).display()[:50], g.fmt(n['args'][0])[:40]))
+    if len(sites) < 2:
         raise AnalysisBroken('C20.R4: only %d emission sites of d->clientPresence found' % len(sites))
     for g, i in sites:
         run.instance(rid)
@@ -935,3 +953,41 @@ def r_multi(prog, run):
             run.violation(rid, 'verificationString#multi-value#%s' % name, f.loc(joins[0]),
                           'a %s field never reaches the sorted join: its values are hashed through the single-value conversion (empty for a list), so they do not influence the '
                           'verification string' % name)
+
+
+def r_reply(prog, run):
+    rid = run.rule('C20.R6', 'the disco#info serialiser writes one element for every identity and every feature the hash covers: no path through the body of its identity / feature '
+                             'loop skips the element (an entry that is hashed but not sent makes every verifier reject the advertised hash)', floor=2)
+    f = prog.fn('QXmppDiscoveryIq::toXmlElementFromChild')
+    dom = f.dom()
+    found = set()
+    for b in f.blocks.values():
+        t = b.get('term')
+        if not t or t.get('k') != 'rangefor' or b['succs'][0] is None:
+            continue
+        rng = f.fmt(t['range'])
+        what = 'identities' if 'identities' in rng else 'features' if 'features' in rng else None
+        if what is None:
+            continue
+        found.add(what)
+        entry = b['succs'][0]
+        body = {x for x in f.blocks if ('b', entry) in dom.get(('b', x), set())}
+        want = 'identity' if what == 'identities' else 'feature'
+        writes = {f.pos(i)[0] for i, n in f.calls() if f.cname(n).endswith('::writeStartElement') and n.get('args') and f.strval(n['args'][0]) == want
+                  and f.pos(i) and f.pos(i)[0] in body}
+        run.instance(rid)
+        if not writes:
+            run.violation(rid, 'toXmlElementFromChild#%s#not-written' % what, f.loc(t['range']), 'the loop over the %s writes no <%s/> element' % (what, want))
+            continue
+        w = cfgx.path_avoiding(f, entry, b['id'], writes, None, within=body) if entry != b['id'] else None
+        if w is None:
+            run.ok(rid, f.loc(t['range']), 'every one of the %s is written as <%s/>' % (what, want))
+        else:
+            last = f.blocks[w[-1]]
+            run.violation(rid, 'toXmlElementFromChild#%s#skipped' % what, f.loc(last['elems'][-1] if last['elems'] else t['range']),
+                          'on some path through the loop an entry of the %s is not written although verificationString() hashes it: the disco#info answer no longer hashes to the '
+                          'advertised ver' % what)
+    for need in ('identities', 'features'):
+        if need not in found:
+            run.instance(rid)
+            run.violation(rid, 'toXmlElementFromChild#%s#missing' % need, f.loc(), 'the %s are not serialised by a loop over the stored list' % need)
